@@ -322,7 +322,7 @@ func guardedByProbe(p *Program) {
 	type key struct{ tn, f string }
 	type stat struct {
 		held, not int
-		sites    []string
+		sites     []string
 	}
 	stats := map[key]*stat{}
 	mutexOf := map[string]string{"Manager": "waddrmgr.Manager.mtx", "ScopedKeyManager": "waddrmgr.ScopedKeyManager.mtx"}
